@@ -18,7 +18,7 @@ def main(ctx, args):
         "non-trivial = a line with a command of this property that changed the text or printed something",
         ["marks on replaced lines and after undo are not constrained", "message wording is not compared",
          "the filter of the scripts is tr a-z A-Z, run with the option writeany; file commands other than :r are covered by C01-C03, C20"],
-        exh=True)
+        exh=True, mc_depth=3 if ctx.quick else 5)
 
 
 if __name__ == "__main__":
